@@ -227,7 +227,10 @@ def run(chk):
         if ty == 'DOUBLE':
             for k in list(range(-320, 309, 7)) + [-323, -308, 308]:
                 vs.add(10.0 ** k)
-            for k in range(-1070, 1024, 37):
+            for k in range(-1074, 1024):        # ALL powers of two (some have a 16-digit shortest repr that is not the
+                vs.add(2.0 ** k)                # nearest 16-digit numeral: found by a sub-agent, not by the stride-37 sample)
+        else:
+            for k in range(-149, 128):
                 vs.add(2.0 ** k)
         n = chk.n(2500, 100000)
         while len(vs) < n:
@@ -235,22 +238,26 @@ def run(chk):
         for v in vs:
             if ty == 'SINGLE':
                 v = values.f32(v)
-            if math.isfinite(v) and not (v == 0 and math.copysign(1, v) < 0):   # -0.0 prints ' -0': not judged
+            if math.isfinite(v):
                 fl.append((ty, v))
+        fl.append((ty, -0.0))      # the negation of zero is zero: same text
     reqs, exps = [], []
     viol_kinds = {}
     for ty, v in fl:
         text = format_number(v, TYS[ty])
         if ty == 'SINGLE':
-            n1 = ctypes.c_float(v).value
+            n1 = ctypes.c_float(abs(v) if v == 0 else v).value
             r1 = str(n1)
             r2 = r1
             if '.' in r1 and 'e' not in r1:
                 r2 = str(round(n1, ndigits=7 - r1.lstrip('-').index('.')))
             t6 = '%.6e' % n1
         else:
-            r1 = r2 = str(v)
-            t6 = ''
+            v0 = abs(v) if v == 0 else v
+            r1 = str(v0)
+            dg = r1.lstrip('-').split('e')[0].replace('.', '').lstrip('0')
+            r2 = ('%.*e' % (len(dg) - 1, abs(v0))) if dg else ''
+            t6 = '%.17g' % v0
         nn = '1' if v >= 0 else '0'
         reqs.append(f'fmtflt {ty[0]} {nn} {core.enc_str(r1)} {core.enc_str(r2)} {core.enc_str(t6)}')
         k = '-'
@@ -270,7 +277,7 @@ def run(chk):
                 sig = f'{ty.lower()}-more-than-{limit}-digits' + ('-exponent-form' if letter else '-plain-form')
             elif abs(abs(true) - val) * 2 > unit:
                 sig = f'{ty.lower()}-not-within-half-unit'
-            elif (sign == '-') != (v < 0 or (v == 0 and math.copysign(1, v) < 0)):
+            elif (sign == '-') != (v < 0):            # (the negation of zero is zero: no minus sign)
                 sig = 'sign-wrong'
             elif letter and letter != ('E' if ty == 'SINGLE' else 'D'):
                 sig = 'exponent-letter-wrong'
